@@ -206,6 +206,37 @@ type jfield struct {
 	name string
 	path []int
 	typ  types.Type
+	omit bool // `json:",omitempty"`: an empty value is left out of the encoding, so decoding leaves the destination untouched
+}
+
+// jsonEmpty reports whether encoding/json's omitempty would leave the value out (false, 0, nil pointer / interface,
+// empty map / slice / string). Only concretely empty values count; a symbolic scalar is kept.
+func jsonEmpty(v Value) bool {
+	switch x := v.(type) {
+	case nil:
+		return true
+	case *IfaceVal:
+		return x == nil
+	case *Cell:
+		return x == nil
+	case *MapObj:
+		return x == nil || len(x.E) == 0
+	case *SliceVal:
+		return x == nil || x.Len == 0
+	case *StrVal:
+		return len(x.B) == 0
+	case *Term:
+		if x.IsConst() {
+			if x.W == WBool {
+				return !x.B
+			}
+			if x.W == WReal {
+				return x.Rat.Sign() == 0
+			}
+			return x.BV == 0
+		}
+	}
+	return false
 }
 
 func jsonFieldName(f *types.Var, tag string) (string, bool) {
@@ -246,7 +277,15 @@ func flatFields(st *types.Struct, prefix []int, out *[]jfield) {
 		if !ok {
 			continue
 		}
-		*out = append(*out, jfield{name: name, path: path, typ: f.Type()})
+		omit := false
+		if jt, ok := reflect.StructTag(st.Tag(i)).Lookup("json"); ok {
+			for _, opt := range strings.Split(jt, ",")[1:] {
+				if opt == "omitempty" {
+					omit = true
+				}
+			}
+		}
+		*out = append(*out, jfield{name: name, path: path, typ: f.Type(), omit: omit})
 	}
 }
 
@@ -359,6 +398,9 @@ func jsonAssign(t *Thread, dst *Cell, src Value, srcT types.Type) {
 				if !ok {
 					continue
 				}
+				if sf.omit && jsonEmpty(v) {
+					continue
+				}
 				jsonAssign(t, dstPath(dst, df.path), v, sf.typ)
 			}
 		}
@@ -378,6 +420,9 @@ func jsonAssign(t *Thread, dst *Cell, src Value, srcT types.Type) {
 				for _, sf := range sfs {
 					v, ok := srcField(ss, sst, sf.path)
 					if !ok {
+						continue
+					}
+					if sf.omit && jsonEmpty(v) {
 						continue
 					}
 					tmp := newCell(du.Elem())
